@@ -449,6 +449,9 @@ type FuncContract struct {
 	Entry      bool // entry point: requires nothing held
 	Opts       map[string]string
 	Applies    []Expr // lemma applications assumed at entry (instantiated at explicit arguments)
+	// clauses about the state right after each Lock() of the function
+	AfterLockAssume []Clause // trusted assumptions (listed)
+	AfterLockApply  []Expr   // lemma applications
 }
 
 type LockDecl struct {
@@ -477,7 +480,7 @@ func (db *ContractDB) allowPanic(fn string) bool {
 }
 
 var clauseKeywords = map[string]bool{
-	"opaque": true, "apply": true, "reveal": true, "guard": true, "lock": true, "lockorder": true, "pure": true, "lemma": true, "func": true, "props": true, "safety": true,
+	"assume_after_lock": true, "apply_after_lock": true, "opaque": true, "apply": true, "reveal": true, "guard": true, "lock": true, "lockorder": true, "pure": true, "lemma": true, "func": true, "props": true, "safety": true,
 	"requires": true, "ensures": true, "let": true, "assigns": true, "loop": true, "invariant": true,
 	"decreases": true, "allow_panic": true, "modular": true, "init_context": true, "entry": true, "option": true, "uses": true, "end": true,
 }
@@ -711,6 +714,18 @@ func (db *ContractDB) addClauses(pkg string, clauses []string, path string) erro
 				return fmt.Errorf("clause %q outside a func block", cl)
 			}
 			switch kw {
+			case "assume_after_lock":
+				e, err := mustParse(rest)
+				if err != nil {
+					return err
+				}
+				cur.AfterLockAssume = append(cur.AfterLockAssume, Clause{Expr: e, Text: rest})
+			case "apply_after_lock":
+				e, err := mustParse(rest)
+				if err != nil {
+					return err
+				}
+				cur.AfterLockApply = append(cur.AfterLockApply, e)
 			case "props":
 				cur.Props = strings.Fields(rest)
 			case "safety":
